@@ -27,6 +27,9 @@ CrashLabels(e) ==
          \cup (IF e.append_ok /\ (Len(e.read_after) # Len(e.read) + 1 \/ ~Dense(e.read_after) \/ ~IsPrefix(Ms(e.read), Ms(e.read_after))
                                   \/ (Len(e.read_after) > 0 /\ e.read_after[Len(e.read_after)][2] # 900001))
                THEN {<<"C04.offset_reused_or_gap", e.at, e.file, e.torn, e.read_after>>} ELSE {})
+         \* a graceful restart of the recovered server serves exactly what it served before (a misaligned repair shows only then)
+         \cup (IF "again" \in DOMAIN e /\ (e.again # "ok" \/ e.read_again # e.read_after)
+               THEN {<<"C04.lost_at_second_restart", e.at, e.file, e.torn, e.again>>} ELSE {})
 
 TraceInit == l = 1 /\ wait = TRUE /\ bad = {}
 TraceNext ==
